@@ -360,6 +360,39 @@ pub fn fals_c04(rng: &mut Rng, thorough: bool) -> Fals {
             }
         }
     }
+    // groups that are fitted exactly (every loss and gradient 0) still take their step
+    for rep in 0..(if thorough { 40 } else { 10 }) {
+        let n = rng.range(2, 3);
+        let mut spec = NetSpec::new(Sh::Flat(n).to_shape());
+        spec.layers.push(LayerSpec::One(Simple::Dense { out: n, act: Act::Linear, bias: rep % 2 == 0, dropout: None }));
+        let mut w = vec![0.0f32; n * n];
+        for i in 0..n {
+            w[i * n + i] = 1.0;
+        }
+        spec.weights = Some(vec![LW::One(W::Dense(t2(n, n, &w), if rep % 2 == 0 { Some(t1(vec![0.0; n])) } else { None }))]);
+        spec.opt = rand_opt(rng, rep % 5);
+        spec.obj = Obj::MSE;
+        let b = *rng.pick(&[1usize, 2]);
+        let nsamp = rng.range(3, 6);
+        let data: Vec<(Tensor, Tensor)> = (0..nsamp).map(|k| {
+            let x: Vec<f32> = (0..n).map(|_| rng.sym()).collect();
+            let t: Vec<f32> = if k < 2 * b || k % 3 == 0 { x.clone() } else { x.iter().map(|v| v + 0.5).collect() };
+            (t1(x), t1(t))
+        }).collect();
+        let epochs = rng.range(2, 3) as i32;
+        let key = format!("learn-replay/exact-fit-groups/{}", spec.opt.kind());
+        let got = guard(|| {
+            let mut net = spec.build();
+            let h = run_learn(&mut net, &data, None, b, epochs);
+            (h, wtok(&net))
+        });
+        let want = guard(|| replay_learn(&spec, &data, b, epochs)).and_then(|x| x);
+        if let (Ok((_, w)), Ok((_, rw))) = (got, want) {
+            f.check(&key, w == rw, "parameters after learn differ from the hand replay when some groups are fitted exactly (a zero-gradient step still applies decay / momentum / moments)", || {
+                format!("{}; B={} E={}; data {}", fmt_spec(&spec), b, epochs, fmt_pairs(&data))
+            });
+        }
+    }
     f
 }
 
